@@ -119,15 +119,37 @@ def run(chk):
 
     # --- helpers directly ---------------------------------------------------------------
     class R:
-        pass
+        """stand-in random source for direct helper calls: answers every kind of request from the value v, recording it"""
+
+        def __init__(self, v, reqs):
+            self.v, self.reqs = v, reqs
+
+        def getrandbits(self, k):
+            self.reqs.append(("getrandbits", k, self.v))
+            return self.v % (1 << k)
+
+        def randrange(self, a, b=None):
+            lo, hi = (0, a) if b is None else (a, b)
+            self.reqs.append(("randrange", hi - lo, self.v))
+            return lo + self.v % (hi - lo)
+
+        def randint(self, a, b):
+            self.reqs.append(("randint", [a, b], self.v))
+            return a + self.v % (b - a + 1)
+
+        def choice(self, seq):
+            self.reqs.append(("choice", len(seq), self.v))
+            return seq[self.v % len(seq)]
+
+        def random(self):
+            self.reqs.append(("random", 0, self.v))
+            return 0.5
     for n in ([1, 2, 3, 4, 8, 16, 32, 64] if quick else list(range(1, 17)) + [20, 24, 31, 32, 33, 48, 64]):
         vals = range(256 ** n) if n == 1 else (range(0, 65536, 257 if quick else 7) if n == 2 else patterns(8, n, 256, rnd, 6 if quick else 60))
         for v in vals:
-            sc = Script(lambda k, b, v=v: v)
-            rr = R()
-            rr.getrandbits = lambda k, sc=sc, v=v: (sc.requests.append(("getrandbits", k, v)) or v)
-            out = getrandbytes(rr, n)
-            ev("bytes", "getrandbytes", n=n, digits=digits_of(v, 256, n), out=list(out), requests=reqs_json(sc.requests))
+            reqs = []
+            out = getrandbytes(R(v, reqs), n)
+            ev("bytes", "getrandbytes", n=n, digits=digits_of(v, 256, n), out=list(out), requests=reqs_json(reqs))
     alphabets = ["ab", "abc", "0123456789", pu.HASH64_CHARS if hasattr(pu, "HASH64_CHARS") else "./0123456789ABCDEFGHIJKLMNOPQRSTUVWXYZabcdefghijklmnopqrstuvwxyz",
                  "".join(chr(c) for c in range(33, 127)), "x"]
     for abc in alphabets:
@@ -136,11 +158,9 @@ def run(chk):
             vals = [0] if L == 1 or n == 0 else (range(L ** n) if L ** n <= (2000 if quick else 70000) else patterns(0, n, L, rnd, 4 if quick else 40))
             for v in vals:
                 for asbytes in ((False, True) if n in (2, 16) else (False,)):
-                    rr = R()
                     reqs = []
-                    rr.randrange = lambda a, b=None, reqs=reqs, v=v: (reqs.append(("randrange", b if b is not None else a, v)) or v)
                     cs = abc.encode() if asbytes else abc
-                    out = getrandstr(rr, cs, n)
+                    out = getrandstr(R(v, reqs), cs, n)
                     if isinstance(out, bytes):
                         out = out.decode()
                     ev("str", "getrandstr", L=L, n=n, abc=[ord(c) for c in abc], digits=digits_of(v, L, n), out=[ord(c) for c in out],
@@ -206,6 +226,7 @@ def run(chk):
         except Exception as e:
             chk.violation(f"context-pins-salt:{name}:{type(e).__name__}", f"CryptContext({name}__salt=..) raised {type(e).__name__} instead of KeyError", {"scheme": name})
         chk.evaluations += 1
+    policy(chk, [s[0] for s in salted], quick)
     chk.extra["salted_hashers"] = [s[0] for s in salted]
     chk.extra["salt_pinning_refused"] = pinned_refused
 
@@ -287,6 +308,77 @@ def run(chk):
                       {"event": {k: (v if not isinstance(v, list) or len(v) < 70 else v[:70]) for k, v in e.items()}, "expected": b["expected"]})
     chk.assumptions += ["the random source itself (SystemRandom / secrets) is uniform; no statistics on live output are used",
                         "int <-> digit-vector conversion of the source value is done by the harness"]
+
+
+def policy(chk, salted, quick):
+    """MC_RandPolicy: every spelling / way of pinning a salt is refused; duplicate alphabets are refused at every attempt"""
+    from passlib.context import CryptContext
+    from passlib import pwd
+    r = tlc.run_instance("MC_RandPolicy", dict(Cats={"none", "admin"}, Holders={"scheme", "all"}, Vias={"ctor", "update", "load-dict", "load-ini", "copy"},
+                                               Apis={"genword-chars", "genphrase-words", "WordGenerator", "PhraseGenerator"},
+                                               Containers={"str", "tuple", "list"}, MaxAttempt=3),
+                         name="C06_policy", invariants=["EmitInv"], workers=1, coverage=False)
+    chk.add_tlc("MC_RandPolicy: spellings of a pinned salt x ways to configure; duplicate alphabets x attempts", r)
+    dup_state = {}
+    for e in sorted(r.emits, key=lambda e: (e["k"], e["x"], e["y"], e["z"], e["attempt"])):
+        if e["k"] == "pin":
+            for name in (salted if not quick else salted[::3]):
+                holder = name if e["y"] == "scheme" else "all"
+                key = ("" if e["x"] == "none" else "admin__") + holder + "__salt"
+                base = dict(schemes=[name])
+                try:
+                    if e["z"] == "ctor":
+                        c = CryptContext(**base, **{key: "abcdefgh"})
+                    elif e["z"] == "update":
+                        c = CryptContext(**base)
+                        c.update(**{key: "abcdefgh"})
+                    elif e["z"] == "copy":
+                        c = CryptContext(**base).copy(**{key: "abcdefgh"})
+                    elif e["z"] == "load-dict":
+                        c = CryptContext()
+                        c.load(dict(base, **{key: "abcdefgh"}))
+                    else:
+                        c = CryptContext.from_string(f"[passlib]\nschemes = {name}\n{key.replace('__', '.')} = abcdefgh\n")
+                    # accepted: does it pin?
+                    cat = None if e["x"] == "none" else "admin"
+                    got = "accepted"
+                    c.handler(name, category=cat)
+                except KeyError:
+                    got = "KeyError"
+                except Exception as ex:
+                    got = type(ex).__name__
+                chk.evaluations += 1
+                chk.count(("pin", e["x"], e["y"], e["z"], name))
+                chk.action("pin-salt")
+                if got != e["expected"]:
+                    chk.violation(f"context-pins-salt:{e['x']}:{e['y']}:{e['z']}:{got}", f"CryptContext configured through {e['z']} with {key}=.. for {name}: {got}, spec {e['expected']}",
+                                  {"scheme": name, "key": key, "via": e["z"]})
+        else:
+            # attempts are made in order on the SAME argument value (the cache is keyed by value)
+            mk = {"str": lambda xs: "".join(xs), "tuple": tuple, "list": list}[e["y"]]
+            words = e["x"] in ("genphrase-words", "PhraseGenerator")
+            src = mk(["alpha", "beta", "gamma", "delta", "alpha", "eps"] if words else list("abcdefga" + e["x"][:1]))
+            try:
+                if e["x"] == "genword-chars":
+                    pwd.genword(entropy=40, chars=src)
+                elif e["x"] == "genphrase-words":
+                    pwd.genphrase(entropy=40, words=src)
+                elif e["x"] == "WordGenerator":
+                    pwd.WordGenerator(entropy=40, chars=src)
+                else:
+                    pwd.PhraseGenerator(entropy=40, words=src)
+                got = "accepted"
+            except ValueError:
+                got = "ValueError"
+            except Exception as ex:
+                got = type(ex).__name__
+            chk.evaluations += 1
+            chk.count(("dup", e["x"], e["y"], e["attempt"]))
+            chk.action("dup-alphabet")
+            if got != e["expected"]:
+                chk.violation(f"dup-alphabet:{e['x']}:{e['y']}:attempt{e['attempt']}:{got}",
+                              f"{e['x']} with a repeated element ({e['y']}) at attempt {e['attempt']}: {got}, spec {e['expected']}", {"source": list(src), "attempt": e["attempt"]})
+    chk.traces += len(r.emits)
 
 
 def replay(chk, path):
